@@ -154,6 +154,9 @@ impl<T> SocksRequest<T> {
         socket.write_u8(self.cmd).await.context("cmd")?;
         let (dst, dport, target) = match &self.target {
             TargetAddress::DomainPort(domain, port) => {
+                if domain.as_bytes().contains(&0) {
+                    bail!("host name contains NUL, can not be sent over socks4a")
+                }
                 ([0, 0, 0, 1], *port, Some(domain.as_bytes()))
             }
             TargetAddress::SocketAddr(a) => {
@@ -166,12 +169,15 @@ impl<T> SocksRequest<T> {
             _ => unreachable!(),
         };
         socket.write_u16(dport).await.context("dport")?;
-        socket.write(&dst).await.context("dport")?;
+        socket.write_all(&dst).await.context("dport")?;
         let cid = auth.auth_v4(&self.auth).await?;
-        socket.write(cid.as_bytes()).await.context("cid")?;
+        if cid.as_bytes().contains(&0) {
+            bail!("user id contains NUL, can not be sent over socks4")
+        }
+        socket.write_all(cid.as_bytes()).await.context("cid")?;
         socket.write_u8(0).await.context("cid")?;
         if let Some(target) = target {
-            socket.write(target).await.context("target")?;
+            socket.write_all(target).await.context("target")?;
             socket.write_u8(0).await.context("target")?;
         }
         Ok(())
@@ -207,6 +213,9 @@ impl<T> SocksRequest<T> {
         let (t, addr, port) = match &self.target {
             TargetAddress::DomainPort(domain, port) => {
                 let mut x = Vec::from(domain.as_bytes());
+                if x.len() > u8::MAX as usize {
+                    bail!("host name too long for socks5: {} bytes", x.len())
+                }
                 x.insert(0, x.len() as u8);
                 (SOCKS_ATYP_DOMAIN, x, *port)
             }
@@ -217,7 +226,7 @@ impl<T> SocksRequest<T> {
             _ => unreachable!(),
         };
         socket.write_u8(t).await.context("type")?;
-        socket.write(&addr).await.context("addr")?;
+        socket.write_all(&addr).await.context("addr")?;
         socket.write_u16(port).await.context("port")?;
         Ok(())
     }
